@@ -269,7 +269,16 @@ func sameTypeName(x, y *types.TypeName) bool {
 	if x.Pkg() == nil || y.Pkg() == nil {
 		return x.Pkg() == y.Pkg()
 	}
+	// A type declared inside a function is identical only to itself:
+	// its name does not identify it even inside one package.
+	if isLocalTypeName(x) || isLocalTypeName(y) {
+		return false
+	}
 	return x.Pkg().Path() == y.Pkg().Path()
+}
+
+func isLocalTypeName(x *types.TypeName) bool {
+	return x.Parent() != nil && x.Parent() != x.Pkg().Scope()
 }
 
 func sameID(obj types.Object, pkg *types.Package, name string) bool {
